@@ -12,6 +12,7 @@ import (
 	"strings"
 	"sync"
 	"sync/atomic"
+	"time"
 
 	"github.com/rminnich/go9p"
 )
@@ -43,6 +44,13 @@ func ownerIndex(v interface{}) int {
 	}
 	p, ok := v.(*ownerT)
 	if !ok {
+		for i := 1; i < len(fatLog); i++ {
+			// same box as handed to Log: decided by address; any other box of
+			// the type: by value
+			if v == fatLog[i] {
+				return i
+			}
+		}
 		return -1
 	}
 	for i := 1; i < len(ownerTab); i++ {
@@ -54,6 +62,40 @@ func ownerIndex(v interface{}) int {
 }
 
 var logTypes = []int{1, 2, 4, 8}
+
+// fatOwner is an owner that is a VALUE, legal (comparable) but expensive to
+// compare: two equal values in different interface boxes are compared word by
+// word (32 KB), the same box is recognised by its address. Log uses the boxes
+// fatLog[i], Filter the equal values fatFlt[i], so every comparison of a
+// matching entry in a Filter costs a 32 KB compare. Word 0 is the owner index,
+// so owners that differ are told apart at once.
+type fatOwner [4096]int64
+
+var fatLog, fatFlt = func() (a, b [5]interface{}) {
+	for i := 1; i < 5; i++ {
+		var v fatOwner
+		v[0] = int64(i)
+		a[i] = v
+		b[i] = v
+	}
+	return
+}()
+
+// logOwner / fltOwner: the interface value handed to Log resp. Filter for an
+// owner index (0 = nil).
+func (c *Case) logOwner(idx int) interface{} {
+	if c.Fat && idx >= 1 && idx <= 4 {
+		return fatLog[idx]
+	}
+	return ownerIface(idx)
+}
+
+func (c *Case) fltOwner(idx int) interface{} {
+	if c.Fat && idx >= 1 && idx <= 4 {
+		return fatFlt[idx]
+	}
+	return ownerIface(idx)
+}
 
 // ---------------------------------------------------------------------------
 // case representation
@@ -90,6 +132,9 @@ type Prod struct {
 	Count int   `json:"count"`
 	Types []int `json:"types"`
 	Yield int   `json:"yield"`
+	// Pre (kind "stall"): this producer runs to completion before the Filter
+	// goroutines and the other producers start (it fills the ring).
+	Pre bool `json:"pre,omitempty"`
 }
 
 func (p *Prod) typeOf(i int) int { return p.Types[i%len(p.Types)] }
@@ -99,6 +144,9 @@ type Filterer struct {
 	Calls  int  `json:"calls"`
 	Params []FP `json:"params"`
 	Yield  int  `json:"yield"`
+	// Until (kind "stall"): keep calling until every producer has finished
+	// (at least once, at most Calls times).
+	Until bool `json:"until,omitempty"`
 }
 
 // Case is the replayable unit.
@@ -110,6 +158,14 @@ type Filterer struct {
 //	kind "sweep": N, Logs — after every Log: converge, then every filter combination.
 //	kind "conc":  N, Prods, Filts — the drawn configuration; the schedule is
 //	              whatever the Go runtime does, the oracle does not depend on it.
+//	kind "long":  like "seq", but the history has Total Log calls, call k being
+//	              Logs[k mod |Logs|] (Logs is a short cyclic pattern), so that
+//	              histories of several times 2^16 calls stay small as cases.
+//	kind "stall": like "conc" with a large ring (or owners that are expensive
+//	              to compare, Fat): producers with "pre" fill the ring first,
+//	              then the other producers log back to back while the Filter
+//	              goroutines keep the logger goroutine busy ("until": as long as
+//	              a producer is running).
 type Case struct {
 	Kind string `json:"kind"`
 	N    int    `json:"n"`
@@ -119,8 +175,26 @@ type Case struct {
 	Filters []Flt      `json:"filters,omitempty"`
 	Prods   []Prod     `json:"prods,omitempty"`
 	Filts   []Filterer `json:"filts,omitempty"`
-	Repeat  int        `json:"repeat,omitempty"` // conc: number of runs of the configuration (default 1)
+	Repeat  int        `json:"repeat,omitempty"` // conc, stall: number of runs of the configuration (default 1)
+	Total   int        `json:"total,omitempty"`  // long: number of Log calls (Logs is repeated cyclically)
+	Fat     bool       `json:"fat,omitempty"`    // stall: owners are 32 KB values compared by value
 	Desc    string     `json:"desc,omitempty"`
+}
+
+// history returns the Log calls of a sequential case.
+func (c *Case) history() ([]ent, error) {
+	pat, err := parseLogs(c.Logs)
+	if err != nil || c.Kind != "long" {
+		return pat, err
+	}
+	if c.Total < 0 || c.Total > 1<<22 || (c.Total > 0 && len(pat) == 0) {
+		return nil, fmt.Errorf("harness: bad total %d for a pattern of %d calls", c.Total, len(pat))
+	}
+	L := make([]ent, c.Total)
+	for i := range L {
+		L[i] = pat[i%len(pat)]
+	}
+	return L, nil
 }
 
 type ent struct{ o, t int }
@@ -172,6 +246,9 @@ var (
 	statConvRounds   atomic.Int64 // largest number of convergence rounds needed
 	statSettles      atomic.Int64 // settling requests (same request repeated until it is the window of the whole history)
 	statSettleRounds atomic.Int64 // largest number of rounds a settling request needed
+	statStallLogs    atomic.Int64 // kind "stall": Log calls of a main-phase producer that took >= 1 ms (queue full, logger busy)
+	statStallFilters atomic.Int64 // kind "stall": Filter calls issued while producers were running
+	statLongLogs     atomic.Int64 // kind "long": Log calls issued
 )
 
 func maxInto(a *atomic.Int64, v int64) {
@@ -200,6 +277,20 @@ func (w worker) log(lg *go9p.Logger, data int, o, t int) {
 func (w worker) filter(lg *go9p.Logger, f FP) []*go9p.Log {
 	w.p.Add(1)
 	r := lg.Filter(ownerIface(f.O), f.T)
+	w.p.Add(1)
+	return r
+}
+
+// logv / filterv: the owner is given as the interface value itself.
+func (w worker) logv(lg *go9p.Logger, data int, owner interface{}, t int) {
+	w.p.Add(1)
+	lg.Log(data, owner, t)
+	w.p.Add(1)
+}
+
+func (w worker) filterv(lg *go9p.Logger, owner interface{}, t int) []*go9p.Log {
+	w.p.Add(1)
+	r := lg.Filter(owner, t)
 	w.p.Add(1)
 	return r
 }
@@ -271,6 +362,10 @@ func window(L []ent, N, j int, f FP) []int {
 // or -1. Taking the smallest feasible j keeps the most freedom for later calls,
 // so a greedy scan decides whether a non-decreasing sequence of j exists.
 func findJ(L []ent, N, jprev, cur int, f FP, got []int) int {
+	if len(got) > 0 && got[len(got)-1]+1 > jprev {
+		// a window that contains serial s belongs to a prefix longer than s
+		jprev = got[len(got)-1] + 1
+	}
 	for j := jprev; j <= cur; j++ {
 		if windowIs(L, N, j, f, got) {
 			return j
@@ -417,7 +512,7 @@ func (r *seqRun) converge() error {
 }
 
 func runSeq(c *Case, w worker) error {
-	L, err := parseLogs(c.Logs)
+	L, err := c.history()
 	if err != nil {
 		return err
 	}
@@ -462,6 +557,9 @@ func runSeq(c *Case, w worker) error {
 	if sweep {
 		return nil
 	}
+	if c.Kind == "long" {
+		statLongLogs.Add(int64(len(L)))
+	}
 	return r.converge()
 }
 
@@ -469,6 +567,10 @@ func runSeq(c *Case, w worker) error {
 // concurrent oracle (schedule independent)
 
 const prodShift = 24
+
+// leanAbove: results with more entries than this are checked without hash
+// sets and are not kept for the cross-result order comparison.
+const leanAbove = 4096
 
 type concRun struct {
 	c  *Case
@@ -489,7 +591,12 @@ func (r *concRun) check(res []*go9p.Log, f FP) ([]int, error) {
 	for p := range last {
 		last[p] = -1
 	}
-	seen := make(map[int]struct{}, len(res))
+	// results of a large ring (kind "stall"): no set of seen entries; a repeated
+	// entry of a producer is either adjacent (caught below) or out of order
+	var seen map[int]struct{}
+	if len(res) <= leanAbove {
+		seen = make(map[int]struct{}, len(res))
+	}
 	for k, it := range res {
 		if it == nil {
 			return nil, fmt.Errorf("%v: entry %d of the result is a nil *Log", f, k)
@@ -507,10 +614,12 @@ func (r *concRun) check(res []*go9p.Log, f FP) ([]int, error) {
 		if !f.matches(pr.O, it.Type) {
 			return nil, fmt.Errorf("%v: entry %d (producer %d #%d, owner %c, type %d) does not match the filter", f, k, p, i, ownerNames[pr.O], it.Type)
 		}
-		if _, dup := seen[d]; dup {
+		if _, dup := seen[d]; dup || i == last[p] {
 			return nil, fmt.Errorf("%v: producer %d #%d returned twice", f, p, i)
 		}
-		seen[d] = struct{}{}
+		if seen != nil {
+			seen[d] = struct{}{}
+		}
 		if last[p] >= 0 {
 			if i < last[p] {
 				return nil, fmt.Errorf("%v: producer %d's entries out of issue order: #%d returned before #%d", f, p, last[p], i)
@@ -605,6 +714,21 @@ func validateConc(c *Case) error {
 			return fmt.Errorf("harness: bad producer %+v", p)
 		}
 	}
+	if c.Kind != "stall" {
+		if c.Fat {
+			return fmt.Errorf("harness: fat owners only in kind stall")
+		}
+		for _, p := range c.Prods {
+			if p.Pre {
+				return fmt.Errorf("harness: pre producers only in kind stall")
+			}
+		}
+		for _, f := range c.Filts {
+			if f.Until {
+				return fmt.Errorf("harness: until filterers only in kind stall")
+			}
+		}
+	}
 	for _, f := range c.Filts {
 		if f.Calls < 0 || len(f.Params) == 0 {
 			return fmt.Errorf("harness: bad filterer %+v", f)
@@ -634,27 +758,56 @@ func runConc(c *Case, ws []worker) error {
 		total += p.Count
 	}
 	start := make(chan struct{})
-	var wg sync.WaitGroup
+	var wg, wgPre sync.WaitGroup
 	errs := make([]error, P+F)
 	results := make([][][]int, F) // every result of every filterer, as keys
-	for p := 0; p < P; p++ {
-		wg.Add(1)
-		go func(p int) {
-			defer wg.Done()
-			defer func() {
-				if x := recover(); x != nil {
-					errs[p] = fmt.Errorf("panic in producer %d: %v", p, x)
-				}
-			}()
-			pr, w := &c.Prods[p], ws[p]
-			<-start
-			for i := 0; i < pr.Count; i++ {
-				w.log(lg, key(p, i), pr.O, pr.typeOf(i))
-				if pr.Yield > 0 && i%pr.Yield == pr.Yield-1 {
-					runtime.Gosched()
-				}
+	keep := c.N <= leanAbove
+	stall := c.Kind == "stall"
+	var running atomic.Int32 // producers of the main phase that have not finished
+	producer := func(p int, start chan struct{}, wg *sync.WaitGroup) {
+		defer wg.Done()
+		defer running.Add(-1)
+		defer func() {
+			if x := recover(); x != nil {
+				errs[p] = fmt.Errorf("panic in producer %d: %v", p, x)
 			}
-		}(p)
+		}()
+		pr, w := &c.Prods[p], ws[p]
+		owner := c.logOwner(pr.O)
+		<-start
+		for i := 0; i < pr.Count; i++ {
+			if stall && !pr.Pre {
+				// evidence only: Log calls that found the queue full for >= 1 ms
+				t0 := time.Now()
+				w.logv(lg, key(p, i), owner, pr.typeOf(i))
+				if time.Since(t0) >= time.Millisecond {
+					statStallLogs.Add(1)
+				}
+			} else {
+				w.logv(lg, key(p, i), owner, pr.typeOf(i))
+			}
+			if pr.Yield > 0 && i%pr.Yield == pr.Yield-1 {
+				runtime.Gosched()
+			}
+		}
+	}
+	// producers with "pre" fill the ring before anything else starts
+	pre := make(chan struct{})
+	for p := 0; p < P; p++ {
+		if c.Prods[p].Pre {
+			wgPre.Add(1)
+			running.Add(1)
+			go producer(p, pre, &wgPre)
+		}
+	}
+	close(pre)
+	wgPre.Wait()
+	for p := 0; p < P; p++ {
+		if !c.Prods[p].Pre {
+			wg.Add(1)
+			running.Add(1)
+			go producer(p, start, &wg)
+		}
 	}
 	for g := 0; g < F; g++ {
 		wg.Add(1)
@@ -669,21 +822,30 @@ func runConc(c *Case, ws []worker) error {
 			var prev []int
 			<-start
 			for k := 0; k < fl.Calls; k++ {
+				if fl.Until && k > 0 && running.Load() == 0 {
+					break
+				}
 				f := fl.Params[k%len(fl.Params)]
-				res := w.filter(lg, f)
-				statConcFilters.Add(1)
+				res := w.filterv(lg, c.fltOwner(f.O), f.T)
+				if stall {
+					statStallFilters.Add(1)
+				} else {
+					statConcFilters.Add(1)
+				}
 				keys, err := r.check(res, f)
 				if err != nil {
 					errs[P+g] = fmt.Errorf("filter goroutine %d call %d: %v", g, k, err)
 					return
 				}
-				if x, y, ok := sameOrder(prev, keys); !ok {
-					errs[P+g] = fmt.Errorf("filter goroutine %d: call %d returned %s before %s, call %d (%v) returns them in the opposite order — both cannot be the logged order",
-						g, k-1, keyStr(x), keyStr(y), k, f)
-					return
+				if keep {
+					if x, y, ok := sameOrder(prev, keys); !ok {
+						errs[P+g] = fmt.Errorf("filter goroutine %d: call %d returned %s before %s, call %d (%v) returns them in the opposite order — both cannot be the logged order",
+							g, k-1, keyStr(x), keyStr(y), k, f)
+						return
+					}
+					prev = keys
+					results[g] = append(results[g], keys)
 				}
-				prev = keys
-				results[g] = append(results[g], keys)
 				if fl.Yield > 0 && k%fl.Yield == fl.Yield-1 {
 					runtime.Gosched()
 				}
@@ -707,7 +869,7 @@ func runConc(c *Case, ws []worker) error {
 	all := FP{0, 0}
 	why := ""
 	for round := 1; round <= convergeRounds; round++ {
-		res := w.filter(lg, all)
+		res := w.filterv(lg, nil, 0)
 		r1, err := r.check(res, all)
 		if err != nil {
 			return fmt.Errorf("N=%d producers=%d total=%d after logging stopped: %v", c.N, P, total, err)
@@ -720,13 +882,13 @@ func runConc(c *Case, ws []worker) error {
 		}
 		got := make([][]int, len(allFilters))
 		for x, f := range allFilters {
-			ks, err := r.check(w.filter(lg, f), f)
+			ks, err := r.check(w.filterv(lg, c.fltOwner(f.O), f.T), f)
 			if err != nil {
 				return fmt.Errorf("N=%d producers=%d total=%d after logging stopped: %v", c.N, P, total, err)
 			}
 			got[x] = ks
 		}
-		r2, err := r.check(w.filter(lg, all), all)
+		r2, err := r.check(w.filterv(lg, nil, 0), all)
 		if err != nil {
 			return fmt.Errorf("N=%d producers=%d total=%d after logging stopped: %v", c.N, P, total, err)
 		}
